@@ -1,5 +1,5 @@
 use std::fs::{File, OpenOptions};
-use std::io::{BufWriter, ErrorKind, Read, Write};
+use std::io::{ErrorKind, Read, Write};
 use std::num::NonZeroU64;
 use std::path::PathBuf;
 
@@ -12,13 +12,14 @@ use crate::types::{
 use crate::wal::{WalError, WalIoOperation, WalReplayIoStep};
 
 pub(crate) struct SegmentWriter {
-    writer: BufWriter<File>,
+    // entries are assembled in memory and handed over in one piece, so no buffering layer
+    file: File,
     segment_id: u64,
 }
 
 impl SegmentWriter {
     pub(crate) fn new(segment_id: u64, file: File) -> Self {
-        Self { writer: BufWriter::new(file), segment_id }
+        Self { file, segment_id }
     }
 
     pub(crate) fn segment_id(&self) -> u64 {
@@ -35,31 +36,51 @@ impl SegmentWriter {
         let header_bytes_written = WAL_ENTRY_HEADER_SIZE as u32;
         let op_data_len = op_data.len() as u32;
 
-        // Hand the entry to the writer in one piece. Written field by field, an entry larger
-        // than the `BufWriter` capacity reaches the file as two writes (header, then op data);
-        // a crash between them leaves a header without its data, which replay rejects.
+        // Write the entry in one piece. Written in several pieces (header, then op data), a crash
+        // between two of them leaves a header without its data, which replay rejects.
         let mut entry = Vec::with_capacity(WAL_ENTRY_HEADER_SIZE + op_data.len());
         entry.extend_from_slice(&op_version.get().to_le_bytes());
         entry.extend_from_slice(op_hash.as_bytes());
         entry.extend_from_slice(&op_data_len.to_le_bytes());
         entry.extend_from_slice(op_data);
 
-        self.writer.write_all(&entry).map_err(|io_err| WalError::WriteWalEntryDataIO {
-            op_version,
-            segment_id: self.segment_id,
-            source: io_err,
-        })?;
+        // A failed append is reported to the caller and never applied to the index, so nothing
+        // of it may stay behind where a later append or replay would pick it up: remember where
+        // the entry starts and cut the segment back to that length if writing or syncing fails.
+        let entry_start = self
+            .file
+            .metadata()
+            .map_err(|io_err| WalError::WriteWalEntryDataIO {
+                op_version,
+                segment_id: self.segment_id,
+                source: io_err,
+            })?
+            .len();
 
-        self.writer.flush().map_err(|e| WalError::Io {
-            operation: WalIoOperation::FlushWriter,
-            path: None,
-            source: e,
-        })?;
-        self.writer.get_ref().sync_data().map_err(|e| WalError::Io {
-            operation: WalIoOperation::SyncData,
-            path: None,
-            source: e,
-        })?;
+        let appended = self
+            .file
+            .write_all(&entry)
+            .map_err(|io_err| WalError::WriteWalEntryDataIO {
+                op_version,
+                segment_id: self.segment_id,
+                source: io_err,
+            })
+            .and_then(|()| {
+                self.file.sync_data().map_err(|e| WalError::Io {
+                    operation: WalIoOperation::SyncData,
+                    path: None,
+                    source: e,
+                })
+            });
+        if let Err(append_err) = appended {
+            if let Err(e) = self.file.set_len(entry_start) {
+                tracing::error!(
+                    "Failed to roll back WAL segment {} after a failed append: {e}",
+                    self.segment_id
+                );
+            }
+            return Err(append_err);
+        }
 
         tracing::trace!(
             version = op_version,
@@ -78,7 +99,7 @@ impl SegmentWriter {
 
         // write an explicit end-of-segment marker.
         let sentinel_header = [0u8; WAL_ENTRY_HEADER_SIZE];
-        self.writer.write_all(&sentinel_header).map_err(|e| WalError::Io {
+        self.file.write_all(&sentinel_header).map_err(|e| WalError::Io {
             operation: WalIoOperation::WriteSentinel,
             path: None,
             source: e,
@@ -93,12 +114,7 @@ impl SegmentWriter {
     // this does NOT write a sentinel marker.
     pub(crate) fn close(self) -> Result<(), WalError> {
         tracing::debug!("Closing WAL segment writer for segment {}", self.segment_id);
-        let file = self.writer.into_inner().map_err(|e| WalError::Io {
-            operation: WalIoOperation::FlushWriter,
-            path: None,
-            source: e.into_error(),
-        })?;
-        file.sync_data().map_err(|e| WalError::Io {
+        self.file.sync_data().map_err(|e| WalError::Io {
             operation: WalIoOperation::SyncData,
             path: None,
             source: e,
